@@ -9,8 +9,9 @@
 //        -> "F <q> <one> <mone> H <h1> <h2> <h3> X <irred> <gen> <card> <char> <expo> <zero> <size> <residu> <genrep> [T l2p | p2l | pl1]"
 //   op <variant> a b c          -> result (see run_op)
 //   opa <variant> <pattern> v1 v2 v3 -> result of the call with aliased destination/operands (c05_alias.h)
-//   arr <variant> <sz> <scalar> | r.. | x.. | y..   -> "R r.." or "UB" (the call crashed in a child process)
-//   dot <sz> | a.. | b..        -> result
+//   arr <variant>[@rx|@ry|@xy|@rxy] <sz> <scalar> | r.. | x.. | y..   -> "R r.." or "UB" (the call crashed in a child process);
+//        @rx: the x argument IS the destination array (contents of r), @ry: y is, @xy: x and y are one array, @rxy: all three
+//   dot[@xy] <sz> | a.. | b..   -> result (@xy: both operands are the same array)
 //   cvt <variant> <value>       -> init from the given C++ type, then convert back:  "<rep> <converted>"
 #include <iostream>
 #include <sstream>
@@ -36,6 +37,11 @@ template <class T> struct Peek : public GFqDom<T> {
     typedef typename Base::TT TT;
     typedef typename Base::UTT UTT;
     typedef typename Base::UT UT;
+#ifdef __GIVARO_COUNT__
+    // second macro set of gfq.inl (operation counters): the macros name the static counters unqualified
+    using Base::_add_count; using Base::_mul_count; using Base::_neg_count; using Base::_div_count; using Base::_sub_count; using Base::_inv_count;
+    using Base::_add_call; using Base::_mul_call; using Base::_neg_call; using Base::_div_call; using Base::_sub_call; using Base::_inv_call;
+#endif
     Peek() : Base() {}
     Peek(const Base& b) : Base(b) {}
     Peek(UTT P, UTT e) : Base(P, e) {}
@@ -154,9 +160,14 @@ template <class T> struct S : public Session {
         else return "UNKNOWN-OP";
         o << (ll)r; return o.str();
     }
-    std::string run_arr(const std::string& v, size_t sz, Elt s, std::vector<Elt> r, const std::vector<Elt>& x, const std::vector<Elt>& y) {
+    std::string run_arr(const std::string& v0, size_t sz, Elt s, std::vector<Elt> r, const std::vector<Elt>& x, const std::vector<Elt>& y) {
         // guard cells around the buffers are not needed: lengths are those the caller announces
+        // variant[@alias]: alias rx = x is the destination array itself, ry = y is, xy = x and y are one array, rxy = all three
+        std::string v = v0, al; size_t at = v0.find('@'); if (at != std::string::npos) { v = v0.substr(0, at); al = v0.substr(at + 1); }
         Elt* rp = r.data(); const Elt* xp = x.data(); const Elt* yp = y.data();
+        if (al == "rx" || al == "rxy") xp = rp;
+        if (al == "ry" || al == "rxy") yp = rp;
+        if (al == "xy") yp = xp;
         if (v == "mul") F.mul(sz, rp, xp, yp);
         else if (v == "mul_s") F.mul(sz, rp, xp, s);
         else if (v == "div") F.div(sz, rp, xp, yp);
@@ -219,7 +230,7 @@ template <class T> struct S : public Session {
             if (WIFEXITED(st) && WEXITSTATUS(st) == 0) return got;
             return "UB";
         }
-        if (t[0] == "dot") {
+        if (t[0] == "dot" || t[0] == "dot@xy") {
             size_t sz = strtoull(t[1].c_str(), 0, 10);
             std::vector<std::vector<std::string> > parts = split_bar(t, 2);
             while (parts.size() < 3) parts.push_back(std::vector<std::string>());
@@ -227,7 +238,7 @@ template <class T> struct S : public Session {
             for (size_t i = 0; i < parts[1].size(); ++i) x.push_back((Elt)strtoll(parts[1][i].c_str(), 0, 10));
             for (size_t i = 0; i < parts[2].size(); ++i) y.push_back((Elt)strtoll(parts[2][i].c_str(), 0, 10));
             x.reserve(1); y.reserve(1);
-            Elt r = -99; F.dotprod(r, sz, x.data(), y.data());
+            Elt r = -99; F.dotprod(r, sz, x.data(), (t[0] == "dot@xy") ? x.data() : y.data());
             std::ostringstream o; o << (ll)r; return o.str();
         }
         if (t[0] == "cvt") {
